@@ -8,6 +8,9 @@ pub mod poll;
 pub mod req;
 pub mod seceq;
 pub mod urlt;
+pub mod err;
+pub mod jsondoc;
+pub mod tok;
 
 pub fn dispatch(op: &str, cfg: &RunCfg, d: &mut Driver) -> Option<OpResult> {
     Some(match op {
@@ -21,6 +24,8 @@ pub fn dispatch(op: &str, cfg: &RunCfg, d: &mut Driver) -> Option<OpResult> {
         "url" => run_op::<urlt::UrlCase>(cfg, d),
         "seceq" => run_op::<seceq::SecEqCase>(cfg, d),
         "poll" => run_op::<poll::PollCase>(cfg, d),
+        "tok" => run_op::<tok::TokCase>(cfg, d),
+        "err" => run_op::<err::ErrCase>(cfg, d),
         _ => return None,
     })
 }
